@@ -14,6 +14,13 @@ ERRMAP = {"ShapeMismatch": "EShape", "RankMismatch": "ERank", "IncompatibleTypes
           "TypeError": "EPyType", "UnboundLocalError": "EPyUnbound", "AttributeError": "EPyAttr",
           "IndexError": "EPyIndex", "ValueError": "EPyValue"}
 
+EVAL_ID = [0]
+def _memo_impl(self, dtype):
+    """one implementation object per literal and per evaluation: a literal used twice in an expression is the SAME TT object"""
+    if getattr(self, "_eval_id", None) != EVAL_ID[0] or getattr(self, "_dtype", None) != dtype:
+        self._obj, self._eval_id, self._dtype = ttgen.mk_tt(self.cores, dtype), EVAL_ID[0], dtype
+    return self._obj
+
 class Lit3:
     def __init__(self, cores): self.cores = [np.asarray(c) for c in cores]
     def coq(self, car):
@@ -21,7 +28,7 @@ class Lit3:
         for c in self.cores:
             cs.append("(%d%%nat,%d%%nat,%d%%nat,%s)" % (c.shape[0], c.shape[1], c.shape[2], car.lit(car.conv(c))))
         return "ELit3 [" + ";".join(cs) + "]"
-    def impl(self, env, dtype): return ttgen.mk_tt(self.cores, dtype)
+    def impl(self, env, dtype): return _memo_impl(self, dtype)
     def dense(self, env, dtype): return ttgen.to_torch(ttgen.ref_full(self.cores), dtype)
     def desc(self): return {"tt": {"N": [c.shape[1] for c in self.cores], "R": [1] + [c.shape[2] for c in self.cores]}}
     def to_json(self): return {"lit3": [np.asarray(c).tolist() if not np.iscomplexobj(c) else [np.asarray(c).real.tolist(), np.asarray(c).imag.tolist()] for c in self.cores], "shapes": [list(c.shape) for c in self.cores]}
@@ -33,7 +40,7 @@ class Lit4:
         for c in self.cores:
             cs.append("(%d%%nat,%d%%nat,%d%%nat,%d%%nat,%s)" % (c.shape[0], c.shape[1], c.shape[2], c.shape[3], car.lit(car.conv(c))))
         return "ELit4 [" + ";".join(cs) + "]"
-    def impl(self, env, dtype): return ttgen.mk_tt(self.cores, dtype)
+    def impl(self, env, dtype): return _memo_impl(self, dtype)
     def dense(self, env, dtype): return ttgen.to_torch(ttgen.ref_full(self.cores), dtype)
     def desc(self): return {"ttm": {"M": [c.shape[1] for c in self.cores], "N": [c.shape[2] for c in self.cores], "R": [1] + [c.shape[3] for c in self.cores]}}
     def to_json(self): return {"lit4": [np.asarray(c).tolist() if not np.iscomplexobj(c) else [np.asarray(c).real.tolist(), np.asarray(c).imag.tolist()] for c in self.cores], "shapes": [list(c.shape) for c in self.cores]}
@@ -245,8 +252,33 @@ def obs_coq(o, car):
 def strip_raw(o):
     return {k: v for k, v in o.items() if k not in ("dense_raw",)}
 
+def literals(e, acc=None):
+    acc = [] if acc is None else acc
+    if isinstance(e, (Lit3, Lit4)):
+        if e not in acc: acc.append(e)
+    for a in getattr(e, "args", []):
+        literals(a, acc)
+    return acc
+
+def operands_intact(e, dtype):
+    """after run_impl: every literal operand object still holds exactly its literal cores, ranks and mode sizes"""
+    bad = []
+    for lit in literals(e):
+        o = getattr(lit, "_obj", None)
+        if o is None or getattr(lit, "_eval_id", None) != EVAL_ID[0]: continue
+        try:
+            cs = [c.detach().cpu().resolve_conj().numpy() for c in o.cores]
+            ok = len(cs) == len(lit.cores) and all(c.shape == l.shape and np.array_equal(c, l.astype(c.dtype)) for c, l in zip(cs, lit.cores))
+            ok = ok and [int(r) for r in o.R] == [1] + [l.shape[-1] for l in lit.cores] and [int(n) for n in o.N] == [l.shape[-2] for l in lit.cores]
+            if o.is_ttm: ok = ok and [int(m) for m in o.M] == [l.shape[1] for l in lit.cores]
+        except Exception as ex:
+            ok = False
+        if not ok: bad.append(lit)
+    return bad
+
 def run_impl(e, dtype, env=None):
     import warnings
+    EVAL_ID[0] += 1
     try:
         with warnings.catch_warnings():
             warnings.simplefilter("ignore")
